@@ -305,6 +305,8 @@ func (g *GenState) genPublish() Op {
 	n := 1 + r.Intn(g.prof.MaxBatch)
 	if r.Chance(0.08) {
 		n = 0
+	} else if r.Chance(0.04) {
+		n = 20 + r.Intn(30) // more than the helpers' internal Consume batch of 32
 	}
 	op := Op{Kind: "publish"}
 	for i := 0; i < n; i++ {
